@@ -3,6 +3,7 @@
 `Rules` specification evaluated by tvdriver), as laid out in DESIGN.md §2.5."""
 import json
 import os
+import subprocess
 import re
 import time
 
@@ -227,6 +228,65 @@ class C07(Check):
         corr = None if impl == model else f"{req!r}: implementation {impl} model {model}"
         oracle = None if impl == spec else f"{req!r}: table gives {impl}, geometry gives {spec}"
         return corr, oracle, [kind], req
+
+    def extra_phase(self, harness_bin):
+        """the tables are built once, at start-up: whatever the machine looks like then (number of usable processors)
+        must not matter — the same sample of lookups is answered by processes confined to 1, 2, 3, 5, 6 and 7
+        processors and compared with the geometry"""
+        issues = []
+        if self._replay_cpus is None and not hasattr(os, "sched_setaffinity"):
+            return issues
+        avail = sorted(os.sched_getaffinity(0))
+        rnd = random.Random(self.seed * 131 + 7)
+        lines = []
+        for sq in range(64):
+            lines += [f"knight\t{sq}", f"king\t{sq}", f"pawn\t{sq}\tw", f"pawn\t{sq}\tb", f"rook\t{sq}\t{0:016x}",
+                      f"bishop\t{sq}\t{0:016x}", f"rook\t{sq}\t{rnd.getrandbits(64) & rnd.getrandbits(64):016x}",
+                      f"bishop\t{sq}\t{rnd.getrandbits(64) & rnd.getrandbits(64):016x}", f"between\t{sq}\t{63 - sq}",
+                      f"between\t{sq}\t{sq}"]
+        req = os.path.join(self.wd, "cpus.req")
+        with open(req, "w") as f:
+            f.write("\n".join(lines) + "\n")
+        expect = os.path.join(self.wd, "cpus.model")
+        vlib.serve(vlib.driver_bin(), req, expect, workers=1)
+        want = [l.split("\t")[1] if "\t" in l else "" for l in vlib.read_lines(expect)]
+        for ncpu in (1, 2, 3, 5, 6, 7):
+            if ncpu > len(avail):
+                continue
+            cpus = set(avail[:ncpu])
+            with open(req) as fin:
+                p = subprocess.run([harness_bin, "serve"], stdin=fin, capture_output=True, text=True, timeout=300,
+                                   env=vlib.ENV, preexec_fn=lambda: os.sched_setaffinity(0, cpus))
+            got = p.stdout.split("\n")
+            self.features[f"cpus={ncpu}"] = len(lines)
+            for k, r in enumerate(lines):
+                self.evaluations += 1
+                a = got[k] if k < len(got) else "crash"
+                if a != want[k]:
+                    issues.append(Issue("oracle", r, a, want[k], want[k],
+                                        f"{r!r} answered by a process confined to {ncpu} processor(s): table gives {a}, geometry gives {want[k]}",
+                                        f"cpus-{ncpu}"))
+                    break
+        return issues
+
+    _replay_cpus = None
+
+    def run_replay(self, path, harness_bin):
+        with open(path) as f:
+            rp = json.load(f)
+        if str(rp.get("stream", "")).startswith("cpus-"):
+            ncpu = int(rp["stream"].split("-")[1])
+            cpus = set(sorted(os.sched_getaffinity(0))[:ncpu])
+            p = subprocess.run([harness_bin, "serve"], input=rp["request"] + "\n", capture_output=True, text=True,
+                               timeout=300, env=vlib.ENV, preexec_fn=lambda: os.sched_setaffinity(0, cpus))
+            a = p.stdout.split("\n")[0]
+            self.evaluations += 1
+            if a != rp["spec_answer"]:
+                return [Issue("oracle", rp["request"], a, rp["spec_answer"], rp["spec_answer"],
+                              f"{rp['request']!r} answered by a process confined to {ncpu} processor(s): table gives {a}, "
+                              f"geometry gives {rp['spec_answer']}", rp["stream"])]
+            return []
+        return super().run_replay(path, harness_bin)
 
 
 # =============================================================================================
@@ -468,6 +528,35 @@ class C11(PlayCheck):
         if interesting:
             f = set(f) | {"draw-condition-met"}
         return c, o, f, (key if interesting else None)
+
+    def extra_phase(self, harness_bin):
+        """the same rule where the search applies it: after a game (the request's history) in which some legal move
+        leads back to an earlier position, a depth-1 search must not score the position below a draw — the drawn
+        position lies exactly at the horizon, where negamax hands over to quiescence; the search model must give
+        the same lines"""
+        issues = []
+        req = os.path.join(self.wd, "drawsearch.req")
+        vlib.gen_requests(["drawsearch", self.seed + 11, self.n(60, 1500), self.corpus_file("positions.fen")], req)
+        hb = vlib.build_harness("fast")
+        for (r, a, m, s) in vlib.run_stream(self.pid, "drawsearch", req, hb):
+            self.evaluations += 1
+            self.features["search-after-game"] = self.features.get("search-after-game", 0) + 1
+            jobs = parse_jobs(a)
+            oracle = None
+            if a in ("crash", "panic", "timeout") or not jobs or "infos" not in jobs[0]:
+                oracle = f"search crashes after the game {r[:300]}"
+            elif jobs[0]["infos"]:
+                sc = jobs[0]["infos"][-1]["s"]
+                val = int(sc[2:]) if sc.startswith("cp") else (1 if not sc.startswith("mate-") else -1) * 30000
+                self.distinct.add(r)
+                if val < 0:
+                    oracle = (f"a legal move repeats an earlier position of the game, yet the depth-1 search scores the "
+                              f"position {sc} for the side to move (a draw is available): {r[:300]}")
+            if oracle:
+                issues.append(Issue("oracle", r, a, m, s, oracle, "drawsearch"))
+            elif norm_hf(a) != norm_hf(m):
+                issues.append(Issue("corr", r, a, m, s, "search after a game with a repetition in reach differs from the model", "drawsearch"))
+        return issues
 
 
 # =============================================================================================
@@ -820,7 +909,10 @@ class C14(Check):
         for (pos, go, ms, shape) in self.wall_cases():
             late = 0
             took = None
-            for attempt in range(2):
+            # (the big-hash case sits right at the edge — clearing a gigabyte takes about as long as the clock allows —
+            # so it is tried three times and reported when it is late at least twice)
+            tries = 3 if shape == "bighash-newgame" else 2
+            for attempt in range(tries):
                 eng = Engine(binary, {"START": int(shape.split(":")[1])} if shape.startswith("late-start") else None)
                 try:
                     eng.send("uci"); eng.read_until(lambda l: l == "uciok", 10)
@@ -840,7 +932,7 @@ class C14(Check):
                     took = (time.time() - t0) * 1000.0
                     if line is None or took >= ms:
                         late += 1
-                    else:
+                    elif tries == 2:
                         break
                 finally:
                     eng.send("stop"); eng.send("quit")
@@ -849,7 +941,7 @@ class C14(Check):
             self.evaluations += 1
             self.features["uci-clock:" + shape] = self.features.get("uci-clock:" + shape, 0) + 1
             self.distinct.add(pos + " | " + go)
-            if late == 2:
+            if late >= 2:
                 req = f"uci\t{pos}\t{go}"
                 detail = (f"no bestmove within the {ms} ms on the mover's clock after '{go}' in '{pos}' "
                           f"(twice; last answer after {took:.0f} ms or never)")
@@ -1309,6 +1401,10 @@ class C04(SearchCheck):
             for k in (1, 2, 3, 5, 9, 40):
                 # (no follow-up search on the all-queens position: its quiescence trees are too large for the model)
                 lines.append(f"search\t1\t{f}||3|{k}|1" + ("" if f.startswith("1QqQ") else f";{f}||2|0|0"))
+        # a forced en-passant reply searched on the tables an earlier search of the game left (the e.p. capture is then
+        # the hash move of the root)
+        lines.append("search\t1\t4B3/8/7R/k7/2p5/P7/1P6/6K1 w - - 0 1||4|0|0;4B3/8/7R/k7/1Pp5/P7/8/6K1 b - b3 0 1||3|0|0")
+        lines.append("search\t1\t6k1/1p6/p7/B1P5/KN6/PP6/8/8 b - - 0 1||5|0|0;6k1/8/p7/BpP5/KN6/PP6/8/8 w - b6 0 2||3|0|0")
         # the largest depth limit there is (u8::MAX, also the limit used when none is given): only dead-drawn
         # positions let all 255 iterations complete
         for f in ["8/8/8/4k3/8/4K3/8/8 w - - 0 1", "8/8/8/4k3/8/4KN2/8/8 b - - 0 1"]:
@@ -1342,7 +1438,9 @@ class C08(SearchCheck):
         def mirror(fen):
             b, side, *_ = fen.split(" ")
             return "/".join(r.swapcase() for r in reversed(b.split("/"))) + (" b" if side == "w" else " w") + " - - 0 1"
-        late = ["8/6k1/8/2R5/8/1K6/3Q1p2/8 w - - 1 25", "8/8/8/4k3/8/8/3QK3/8 w - - 0 1", "8/8/1k6/8/8/2R5/3K4/8 w - - 0 1",
+        # (the last two: a check whose only answer is an en-passant capture — not a mate)
+        late = ["6k1/1p6/p7/B1P5/KN6/PP6/8/8 b - - 0 1", "4B3/8/7R/k7/2p5/P7/1P6/6K1 w - - 0 1",
+                "8/6k1/8/2R5/8/1K6/3Q1p2/8 w - - 1 25", "8/8/8/4k3/8/8/3QK3/8 w - - 0 1", "8/8/1k6/8/8/2R5/3K4/8 w - - 0 1",
                 "8/8/8/8/8/2k5/7r/1K6 w - - 0 1", "5k2/8/8/8/8/8/5PPP/3R2K1 b - - 0 1", "8/8/8/3k4/8/8/4PP2/4K2R w K - 0 1"]
         d = 8 if self.tier == "quick" else 11
         lines = [f"search\t1\t{f}||{d}|0|0;{mirror(f)}||{d}|0|0" for f in late]
